@@ -908,6 +908,26 @@ where
             _ => return,
         };
 
+        if self.has_expiry() || self.has_valid_after() {
+            let (ttl, tti, va) = (
+                &self.time_to_live(),
+                &self.time_to_idle(),
+                &self.valid_after(),
+            );
+            let now = self.current_time_from_expiration_clock();
+            if is_expired_entry_wo(ttl, va, &entry, now)
+                || is_expired_entry_ao(tti, va, &entry, now)
+            {
+                // The candidate has already expired or been invalidated while its op was
+                // waiting in the channel. It must not take part in an admission contest,
+                // where it could evict a live entry. Remove it, but not a newer value of
+                // the same key.
+                self.cache
+                    .remove_if(&kh.key, |_, v| TrioArc::ptr_eq(v, &entry));
+                return;
+            }
+        }
+
         if !self.has_enough_capacity(new_weight, counters)
             && (self.has_expiry() || self.has_valid_after())
         {
